@@ -43,6 +43,9 @@ def gen_cases(rng, tier, count=None):
         c = {"kind": "partition", "part": name, "box": box, "np_seed": int(rng.integers(1 << 30)),
              "ops_seed": int(rng.integers(1 << 30)), "steps": int(rng.integers(6, 40)),
              "p_deepen": float(rng.choice([0.0, 0.3, 0.6])), "max_nodes": 600, "_cost": 0.05}
+        if dim >= 2 and rng.random() < 0.12:
+            c["box"] = [list(box[0]) for _ in box]
+            c["alias_box"] = True
         if rng.random() < 0.15:
             c.update(chain=str(rng.choice(["last", "random"])), p_deepen=0.0, steps=int(rng.integers(45, 90)))
         if name.startswith("R") and rng.random() < 0.6:
